@@ -110,6 +110,8 @@ const CL_NAMES: &[&str] = &[
     "product[s,x]", "MAX", "ONE", "conditional_select", "conditional_negate", "Bits << n", "!Bits", "overflowing_mul.0", "overflowing_neg.0", "pow",
     "next_multiple_of", "next_power_of_two", "from_base_le(to_base_le,b=n+2)", "from_base_be(to_base_be,b=2^63+n)", "wrapping_from(i64 -x)", "saturating_from(f64)",
     "wrapping_from(u128)", "wrapping_from(Uint<256>)", "saturating_from(Uint<70>)",
+    // compound assignment operators: the forms that modify a value in place
+    "+=", "-=", "*=", "/=", "%=", "&=", "|=", "^=", "<<= usize", ">>= usize", "Bits <<= usize", "Bits >>= usize", "+= &x", "<<= Uint", ">>= Uint", "<<= &u8", ">>= &i32",
 ];
 
 fn closure_op<const B: usize, const L: usize>(code: usize, s: Uint<B, L>, x: Uint<B, L>, n: usize) -> Option<Uint<B, L>> {
@@ -195,6 +197,23 @@ fn closure_op<const B: usize, const L: usize>(code: usize, s: Uint<B, L>, x: Uin
         76 => Uint::wrapping_from(((lo as u128) << 64) | n as u128),
         77 => Uint::wrapping_from(Uint::<256, 4>::from_limbs([lo, !lo, n as u64, lo])),
         78 => Uint::saturating_from(Uint::<70, 2>::from_limbs([lo, (n as u64) & 63])),
+        79 => { let mut t = s; t += x; t }
+        80 => { let mut t = s; t -= x; t }
+        81 => { let mut t = s; t *= x; t }
+        82 => { let mut t = s; t /= x; t }
+        83 => { let mut t = s; t %= x; t }
+        84 => { let mut t = s; t &= x; t }
+        85 => { let mut t = s; t |= x; t }
+        86 => { let mut t = s; t ^= x; t }
+        87 => { let mut t = s; t <<= n; t }
+        88 => { let mut t = s; t >>= n; t }
+        89 => { let mut t = Bits::from(s); t <<= n; t.into_inner() }
+        90 => { let mut t = Bits::from(s); t >>= n; t.into_inner() }
+        91 => { let mut t = s; t += &x; t }
+        92 => { let mut t = s; t <<= x; t }
+        93 => { let mut t = s; t >>= x; t }
+        94 => { let mut t = s; t <<= &((n & 0xff) as u8); t }
+        95 => { let mut t = s; t >>= &((n & 0x7fff_ffff) as i32); t }
         _ => panic!("harness: bad closure code"),
     })
 }
@@ -271,23 +290,34 @@ fn closure_ref(bits: usize, code: usize, s: &BigUint, x: &BigUint, n: usize) -> 
     if bits == 0 {
         // the only value is zero
         return match code {
-            14 | 15 | 16 | 51 | 52 | 70 => NoTransition, // division by zero panics
+            14 | 15 | 16 | 51 | 52 | 70 | 82 | 83 => NoTransition, // division by zero panics
             30 if n == 0 => NoTransition,
             17..=22 | 28 | 32 | 33 | 38 | 39 | 40 | 55 | 71 => Unknown,
             _ => Val(BigUint::zero()),
         };
     }
     match code {
-        0 | 59 => wrap(s + x),
-        1 => wrap(&m + s - x),
-        2 | 60 | 67 => wrap(s * x),
+        0 | 59 | 79 | 91 => wrap(s + x),
+        1 | 80 => wrap(&m + s - x),
+        2 | 60 | 67 | 81 => wrap(s * x),
         3 | 68 => wrap(&m - s),
         4 | 66 => Val(&mx - s),
-        5 => Val(s & x),
-        6 => Val(s | x),
-        7 => Val(s ^ x),
-        8 | 53 | 65 => wrap(shl(s, n)),
-        9 | 54 => Val(if n > bits + 200 { BigUint::zero() } else { s >> n }),
+        5 | 84 => Val(s & x),
+        6 | 85 => Val(s | x),
+        7 | 86 => Val(s ^ x),
+        8 | 53 | 65 | 87 | 89 => wrap(shl(s, n)),
+        9 | 54 | 88 | 90 => Val(if n > bits + 200 { BigUint::zero() } else { s >> n }),
+        94 => wrap(shl(s, n & 0xff)),
+        95 => Val(if (n & 0x7fff_ffff) > bits + 200 { BigUint::zero() } else { s >> (n & 0x7fff_ffff) }),
+        92 | 93 => {
+            // a Uint-typed amount: everything at or beyond the width shifts all bits out
+            if x >= &BigUint::from(bits as u64) {
+                Val(BigUint::zero())
+            } else {
+                let k = lo as usize;
+                if code == 92 { wrap(s << k) } else { Val(s >> k) }
+            }
+        }
         10 | 11 => {
             let k = if code == 10 { n % bits } else { (bits - n % bits) % bits };
             wrap((s << k) | (s >> (bits - k)))
@@ -310,8 +340,8 @@ fn closure_ref(bits: usize, code: usize, s: &BigUint, x: &BigUint, n: usize) -> 
             }
             Val(r)
         }
-        14 | 21 | 51 => if x.is_zero() { NoTransition } else { Val(s / x) },
-        15 | 22 | 52 => if x.is_zero() { NoTransition } else { Val(s % x) },
+        14 | 21 | 51 | 82 => if x.is_zero() { NoTransition } else { Val(s / x) },
+        15 | 22 | 52 | 83 => if x.is_zero() { NoTransition } else { Val(s % x) },
         16 => if x.is_zero() { NoTransition } else { Val((s + x - 1u32) / x) },
         17 => opt(s + x),
         18 => if s >= x { Val(s - x) } else { NoTransition },
@@ -390,9 +420,9 @@ static EDGES: AtomicU64 = AtomicU64::new(0);
 static EDGES_REF: AtomicU64 = AtomicU64::new(0);
 static BAD: Mutex<Vec<(usize, Vec<V>, V, String)>> = Mutex::new(vec![]);
 
-const BINARY_CODES: &[usize] = &[0, 1, 2, 5, 6, 7, 14, 15, 16, 17, 18, 19, 21, 22, 23, 24, 25, 26, 27, 28, 29, 31, 32, 34, 35, 37, 38, 40, 45, 46, 49, 50, 51, 52, 59, 60, 67, 69, 70, 74, 75];
+const BINARY_CODES: &[usize] = &[0, 1, 2, 5, 6, 7, 14, 15, 16, 17, 18, 19, 21, 22, 23, 24, 25, 26, 27, 28, 29, 31, 32, 34, 35, 37, 38, 40, 45, 46, 49, 50, 51, 52, 59, 60, 67, 69, 70, 74, 75, 79, 80, 81, 82, 83, 84, 85, 86, 91, 92, 93];
 const UNARY_CODES: &[usize] = &[3, 4, 13, 20, 33, 39, 43, 44, 57, 58, 61, 62, 66, 68, 71];
-const AMOUNT_CODES: &[usize] = &[8, 9, 10, 11, 12, 30, 41, 42, 53, 54, 55, 56, 65, 64, 72, 73];
+const AMOUNT_CODES: &[usize] = &[8, 9, 10, 11, 12, 30, 41, 42, 53, 54, 55, 56, 65, 64, 72, 73, 87, 88, 89, 90, 94, 95];
 const BOTH_CODES: &[usize] = &[36, 47, 48, 63, 76, 77, 78];
 
 impl Model for Closure {
@@ -684,7 +714,7 @@ fn tapes(len: usize) -> Vec<Vec<u8>> {
 }
 
 fn c04(r: &Runner) {
-    r.set_rule("part 1 (explicit-state search, stateright BFS, transition function = the real operations): widths 1..8: the FULL closure of {0} under 79 operations with all 2^B operands and all amounts 0..B+2 and {63,64,65,B+64} - every reachable state must be canonical and every edge equal to the Z/2^B reference; widths 65,67,127,129,193,250: BFS from {0,1,MAX}, 2 (3 thorough) levels of operations applied to results of operations with P'(B)+L(B;A3) operands. part 2: ==, !=, <, <=, >, >=, cmp, partial_cmp, min, max, Hash, is_zero on all pairs of S(B), B <= 8 (10), and of the wide universes; equal values reached by different routes are == and hash alike. part 3: from_limbs / from_limbs_slice family over limb tuples incl. top limbs above the mask; rand 0.8 / 0.9, arbitrary, proptest generators driven by ENUMERATED byte tapes (all-equal and single-deviation tapes over {00,01,7f,80,ff}); quickcheck::Gen owns a private entropy-seeded RNG that cannot be replaced: its 2000 draws per width are SAMPLED and not counted as exhaustive. part 4 (ill-formed types) is appended by the probe engine");
+    r.set_rule("part 1 (explicit-state search, stateright BFS, transition function = the real operations): widths 1..8: the FULL closure of {0} under 96 operations (incl. every compound assignment operator) with all 2^B operands and all amounts 0..B+2 and {63,64,65,B+64} - every reachable state must be canonical and every edge equal to the Z/2^B reference; widths 65,67,127,129,193,250: BFS from {0,1,MAX}, 2 (3 thorough) levels of operations applied to results of operations with P'(B)+L(B;A3) operands. part 2: ==, !=, <, <=, >, >=, cmp, partial_cmp, min, max, Hash, is_zero on all pairs of S(B), B <= 8 (10), and of the wide universes; equal values reached by different routes are == and hash alike. part 3: from_limbs / from_limbs_slice family over limb tuples incl. top limbs above the mask; rand 0.8 / 0.9, arbitrary, proptest generators driven by ENUMERATED byte tapes (all-equal and single-deviation tapes over {00,01,7f,80,ff}); quickcheck::Gen owns a private entropy-seeded RNG that cannot be replaced: its 2000 draws per width are SAMPLED and not counted as exhaustive. part 4 (ill-formed types) is appended by the probe engine");
     // ---- part 1
     let small: Vec<usize> = if r.is_thorough() { (0..=8).collect() } else { vec![0, 1, 2, 3, 4, 5, 6, 7, 8] };
     for bits in small {
